@@ -4,9 +4,9 @@ namespace c16
 {
   void reg_bilin(std::vector<vf::Target>& tg)
   {
-    tg.push_back({"bilin_quad", [](vf::Tape& t, vf::Ctx& c) { bilin_target<Shape::Hypercube<2>, false>(t, c); }, 320, 24, 60000});
-    tg.push_back({"bilin_tria", [](vf::Tape& t, vf::Ctx& c) { bilin_target<Shape::Simplex<2>, true>(t, c); }, 320, 24, 60000});
-    tg.push_back({"bilin_hexa", [](vf::Tape& t, vf::Ctx& c) { bilin_target<Shape::Hypercube<3>, false>(t, c); }, 320, 24, 60000});
-    tg.push_back({"bilin_tetra", [](vf::Tape& t, vf::Ctx& c) { bilin_target<Shape::Simplex<3>, true>(t, c); }, 320, 24, 60000});
+    tg.push_back({"bilin_quad", [](vf::Tape& t, vf::Ctx& c) { bilin_target<Shape::Hypercube<2>, false>(t, c); }, 200, 2, 60000});
+    tg.push_back({"bilin_tria", [](vf::Tape& t, vf::Ctx& c) { bilin_target<Shape::Simplex<2>, true>(t, c); }, 200, 2, 60000});
+    tg.push_back({"bilin_hexa", [](vf::Tape& t, vf::Ctx& c) { bilin_target<Shape::Hypercube<3>, false>(t, c); }, 200, 2, 60000});
+    tg.push_back({"bilin_tetra", [](vf::Tape& t, vf::Ctx& c) { bilin_target<Shape::Simplex<3>, true>(t, c); }, 200, 2, 60000});
   }
 }
